@@ -110,6 +110,11 @@ def SETMAX(n, real=False):
     return dict(k='set_max', n=n, then='real') if real else dict(k='set_max', n=n)
 
 
+def SPAWN():
+    """Scheduler::spawn_thread: adds a pool thread whatever the maximum is"""
+    return dict(k='spawn_thread')
+
+
 def DESPAWN():
     return dict(k='despawn')
 
@@ -195,8 +200,8 @@ def spurious_families(pools=(0, 1)):
         out.append(make('spur_FDdet_S_p%d' % p, 1, p, 1, [FD(1, aw=[1], then='detach'), S(1)], [SPUR(1), SPUR(1), FIRE(1)]))
         out.append(make('spur_FDaw_p%d' % p, 1, p, 1, [FD(1, aw=[1], then='await')], [SPUR(1), FIRE(1), SPUR(1)]))
         # a stale wake-up arrives while a try_sync / immediate sync closure is running on the (otherwise idle) queue
-        out.append(make('spur_during_T_p%d' % p, 1, p, 1, [FD(1, aw=[1], then='await'), T(1), D(1), S(1), T(1)], [FIRE(1), SPUR(1)]))
-        out.append(make('spur_during_S_p%d' % p, 1, p, 1, [FD(1, aw=[1], then='await'), S(1), D(1), S(1)], [FIRE(1), SPUR(1)]))
+        out.append(make('spur_during_T_p%d' % p, 1, p, 1, [FD(1, aw=[1], then='detach'), BARRIER(), BARRIER(), T(1), D(1), S(1), T(1)], [BARRIER(), FIRE(1), BARRIER(), SPUR(1)]))
+        out.append(make('spur_during_S_p%d' % p, 1, p, 1, [FD(1, aw=[1], then='detach'), BARRIER(), BARRIER(), S(1), D(1), S(1)], [BARRIER(), FIRE(1), BARRIER(), SPUR(1)]))
     for p in (1, 2):
         out.append(make('spur_FDdet_D_S_p%d' % p, 1, p, 1, [FD(1, aw=[1], then='detach'), D(1)], [SPUR(1), FIRE(1)], [S(1)]))
         out.append(make('spur_FD2aw_p%d' % p, 1, p, 2, [FD(1, aw=[1, 2], then='await')], [FIRE(1), SPUR(1), FIRE(2)]))
@@ -328,6 +333,9 @@ def max_families():
     out.append(make('setmax_real_raise_idle_p1', 1, 1, 0, [D(1), S(1), SETMAX(2, real=True), D(1), S(1)], extra_pool=1, drivers=['dfs']))
     out.append(make('setmax_real_lower_p2', 2, 2, 0, [D(1), D(2), BARRIER(), SETMAX(1, real=True), DESPAWN(), BARRIER(), D(1), S(1)], [S(2), BARRIER(), BARRIER(), D(2)], extra_pool=1, drivers=['dfs']))
     out.append(make('setmax_real_zero_p1', 2, 1, 0, [D(1), S(1), BARRIER(), SETMAX(0, real=True), DESPAWN(), D(2), S(2)], drivers=['dfs']))
+    # threads added explicitly with spawn_thread take work like any other and are brought back to the maximum by despawn
+    out.append(make('spawn_thread_despawn_p1', 2, 1, 0, [SPAWN(), D(1), D(2), S(1), S(2), BARRIER(), DESPAWN(), D(1), S(1)], extra_pool=2))
+    out.append(make('spawn_thread_race_p1', 2, 1, 0, [SPAWN(), D(1), S(1)], [D(2), S(2)], extra_pool=2))
     out.append(make('raise_max_p0', 2, 0, 0, [D(1), SETMAX(2), D(2), D(1)], [S(1), S(2)], extra_pool=2))
     return out
 
